@@ -685,3 +685,55 @@ func VerifC11Logged(tries int) {
 	verifAssert(verifGoroutines() == 0, "no-goroutine-left-after-close")
 	verifReach("end")
 }
+
+// VerifC10Logged (C10, C12): a client that logs dropped packets receives an undecodable datagram
+// (kind 0: three bytes; 1: a 40-byte relay message, which a client does not take; 2: a message
+// whose option overruns the datagram) at a symbolic instant, and after it an ADVERTISE of 20 bytes
+// bearing the call's transaction id at a symbolic instant inside the schedule. The call returns
+// that datagram, whole, at the instant it arrives (a receive path that remembered anything from
+// the dropped one — a shortened buffer, say — would not).
+func VerifC10Logged(kind, tries int) {
+	k := &verifCall{conn: newVerifConn(), ctxAt: -1, closeAt: -1}
+	k.T = int64(verifU32("T"))
+	verifAssume(k.T >= 1)
+	c, err := NewWithConn(k.conn, verifHW, WithTimeout(time.Duration(k.T)), WithRetry(tries), WithLogDroppedPackets())
+	verifAssert(err == nil, "client-created")
+	k.c = c
+	k.req = verifRequest()
+	k.dest = verifDest()
+	w := k.T
+	for i := 0; i < tries; i++ {
+		k.budget += w
+		w += w
+	}
+	var g []byte
+	switch kind {
+	case 0:
+		g = append([]byte{12}, verifBytes("garbage", 2)...)
+	case 1:
+		g = append([]byte{12}, verifBytes("garbage", 39)...)
+	default:
+		g = append([]byte{2, 0xa1, 0xb2, 0xc3, 0, 1, 0, 10}, verifBytes("garbage", 2)...)
+	}
+	gat, rat := int64(verifU64("garbage.at")), int64(verifU64("reply.at"))
+	verifAssume(gat >= 0)
+	verifAssume(rat > gat)
+	verifAssume(rat < k.budget)
+	reply := &dhcpv6.Message{MessageType: dhcpv6.MessageTypeAdvertise, TransactionID: verifXID}
+	reply.AddOption(&dhcpv6.OptionGeneric{OptionCode: dhcpv6.OptionCode(250), OptionData: verifBytes("reply.data", 12)})
+	want := reply.ToBytes()
+	k.conn.deliver(gat, g)
+	k.conn.deliver(rat, want)
+	k.start = verifNow()
+	k.resp, k.err = c.SendAndRead(newVerifCtx(), k.dest, k.req, IsMessageType(dhcpv6.MessageTypeAdvertise))
+	k.end = verifNow()
+	verifAssert(k.resp != nil && k.err == nil, "acceptable-datagram-ends-the-call")
+	if k.resp != nil {
+		verifAssert(k.end-k.start == rat, "returns-when-the-acceptable-datagram-arrives")
+		verifAssert(verifSame(k.resp.ToBytes(), want), "response-is-the-datagram-that-arrived")
+	}
+	verifObserveInt("writes", len(k.conn.log))
+	cerr := c.Close()
+	verifAssert(cerr == nil, "close-returns")
+	verifReach("end")
+}
